@@ -145,6 +145,9 @@ class Runner:
         return [1] if i in self.events else [1, 2]
 
     def _wlist(self, name, k=0):
+        if self.on_class and self.case.get('via_parent') and self.case.get('inherit'):
+            # read where the registrations are made: the parent's Parameter (one registry, shared with the subclass's copy)
+            return self.cls.__mro__[1].param[name].watchers.get(SLOTS[k], [])
         if self.on_class or k:
             return self.obj.param[name].watchers.get(SLOTS[k], [])
         return self.obj._param__private.watchers.get(name, {}).get('value', [])
@@ -232,14 +235,18 @@ class Runner:
                 finally:
                     runner.stack.pop()
             self.cbs[cbid] = cb
+        # `via_parent` (class level, the object is a subclass that only inherits its parameters): the registration is made
+        # through the PARENT class.  The copy of an inherited Parameter that a subclass gets on its first assignment shares
+        # the parent's watcher registry, so for the model nothing changes - also for a watcher kind registered after the copy
+        robj = self.cls.__mro__[1] if (self.case.get('via_parent') and self.on_class and self.case.get('inherit')) else self.obj
         if w.get('kw'):
-            wo = self.obj.param.watch_values(self.cbs[cbid], [self._name(i) for i in w['params']],
+            wo = robj.param.watch_values(self.cbs[cbid], [self._name(i) for i in w['params']],
                                                           onlychanged=w['onlychanged'], queued=w['queued'],
                                                           precedence=w['precedence'])
         else:
             # a negative precedence is what the library's own watchers have (depends(), references): the public
             # `watch` refuses it, the internal `_watch` is what those callers use
-            reg = self.obj.param._watch if w['precedence'] < 0 else self.obj.param.watch
+            reg = robj.param._watch if w['precedence'] < 0 else robj.param.watch
             wo = reg(self.cbs[cbid], [self._name(i) for i in w['params']],
                      what=SLOTS[w.get('what', 0)],
                      onlychanged=w['onlychanged'], queued=w['queued'],
@@ -698,6 +705,8 @@ def gen_case(rng, prop, max_params=4, max_watchers=5, faults=False, size=8):
     if level == 'instance' and not second and rng.random() < 0.3 and '"clsSet"' not in json.dumps([program, bodies]):
         # (not together with class-level assignments of a default, which are the class's own events)
         extra['cls_watch'] = True
+    if level == 'class' and inherit and rng.random() < 0.5:
+        extra['via_parent'] = True
     if level == 'class' and rng.random() < 0.3:
         extra['constants'] = [i for i in range(n) if i not in events and rng.random() < 0.5]
     return {**extra, 'prop': prop, 'level': level, 'shared': shared, 'inherit': inherit, 'events': events, 'bounds': bounds, 'init': init, 'watchers': watchers,
@@ -774,7 +783,7 @@ def tags(case, impl):
                     t.append(f'stmt:{it["k"]}' + (':batched' if it['b'] else '') + ('' if it['res'] == 'ok' else ':raised'))
                     if it['k'] in ('set', 'key') and (it.get('new', 0) >= DYN_BASE or it.get('old', 0) >= DYN_BASE):
                         t.append('value:callable')
-    for k in ('legacy_batch', 'shared', 'inherit', 'others', 'constants', 'cls_watch'):
+    for k in ('legacy_batch', 'shared', 'inherit', 'others', 'constants', 'cls_watch', 'via_parent'):
         if case.get(k):
             t.append('case:' + k)
     return t
